@@ -186,9 +186,10 @@ def w_grid(case):
             theta[i] = v
         free = [i for i in range(len(params)) if i not in [f[0] for f in fix]]
         half = case.get('split', len(fix))
-        ll.fix_parameters({names[i]: v for i, v in fix[:half]})
+        step = -1 if case.get('fix_desc') else 1
+        ll.fix_parameters({names[i]: v for i, v in fix[:half][::step]})
         if fix[half:]:
-            ll.fix_parameters({names[i]: v for i, v in fix[half:]})
+            ll.fix_parameters({names[i]: v for i, v in fix[half:][::step]})
         ntr += 1
         e_tot, e_pw = reference(case, theta)
         e_tot = float(np.real(e_tot))
@@ -209,6 +210,22 @@ def w_grid(case):
                              'parameters is not the reference sum at the '
                              'substituted parameter vector', 'expected': e_tot,
                              'observed': [g1, g2, g3, g4], 'behaviour': 'fixed'})
+            # the free vector as a Python list whose last entry (a free error
+            # parameter worth a whole number) is an int
+            if free and free[-1] >= case['n_mech']:
+                theta_i = theta.copy()
+                theta_i[free[-1]] = 1.0
+                e_i = float(np.real(reference(case, theta_i)[0]))
+                arg = [float(v_) for v_ in params[free][:-1]] + [1]
+                g_i = [ll(list(arg)),
+                       float(np.sum(ll.compute_pointwise_ll(list(arg)))),
+                       ll.evaluateS1(list(arg))[0]]
+                ntr += 3
+                if not all(tol.close(g, e_i) for g in g_i):
+                    viol.append({'sub': 'fixed_int', 'message': 'log-likelihood '
+                                 'with fixed parameters evaluated at a list ending '
+                                 'in an int is not the reference sum', 'expected':
+                                 e_i, 'observed': g_i, 'behaviour': 'fixed'})
             # the same parameters re-fixed to other values, evaluated at the SAME
             # free vector (every entry point first once)
             theta2 = theta.copy()
@@ -366,9 +383,12 @@ def w_siblings(case):
     pre = dict(case['pre_fixed'])                       # index -> value
     user.fix_parameters({names[i]: v for i, v in pre.items()})
     em = chi_error_model(case['ems'][0])
-    lls = [chi.LogLikelihood(user, [em], case['obs'][0], case['times'][0])
+    # (ONE list object holding the user's error model is handed to every likelihood)
+    user_ems = [em]
+    lls = [chi.LogLikelihood(user, user_ems, case['obs'][0], case['times'][0])
            for _ in range(2)]
     state = [dict(pre), dict(pre)]
+    user_state = dict(pre)
     all_names = names + lls[0].get_parameter_names()[-(len(full) - n_mech):]
 
     def expect(k):
@@ -389,6 +409,11 @@ def w_siblings(case):
                     state[k][i] = v
         elif op[0] == 'user_fix':     # on the user's own object
             user.fix_parameters({names[i]: v for i, v in op[1]})
+            for i, v in op[1]:
+                if v is None:
+                    user_state.pop(i, None)
+                else:
+                    user_state[i] = v
         ntr += 1
         for k in (0, 1):
             e, free = expect(k)
@@ -403,6 +428,31 @@ def w_siblings(case):
                              % (k, case['ops']), 'expected': e, 'observed': g,
                              'behaviour': 'siblings'})
                 return {'transitions': ntr, 'outcome': 'viol', 'violations': viol}
+    # a likelihood built NOW from the user's objects knows nothing of what was done
+    # to the earlier ones
+    if len(user_ems) != 1 or user_ems[0] is not em:
+        viol.append({'sub': 'user_list', 'message': 'the list of error models handed '
+                     'to the likelihoods was modified (after %s)' % case['ops'],
+                     'expected': 'the user\'s list', 'observed': repr(user_ems),
+                     'behaviour': 'siblings'})
+    else:
+        state.append(dict(user_state))
+        late = chi.LogLikelihood(user, user_ems, case['obs'][0], case['times'][0])
+        e, free = expect(2)
+        x = full[free]
+        if late.n_parameters() != len(x):
+            viol.append({'sub': 'late', 'message': 'a likelihood built from the '
+                         'user\'s objects after %s has %d parameters'
+                         % (case['ops'], late.n_parameters()), 'expected': len(x),
+                         'observed': late.n_parameters(), 'behaviour': 'siblings'})
+        else:
+            g = [late(x.copy()), late.evaluateS1(x.copy())[0]]
+            if not all(tol.close(v, e) for v in g):
+                viol.append({'sub': 'late', 'message': 'a likelihood built from the '
+                             'user\'s objects after %s is not the reference sum at '
+                             'the user model\'s fixed values' % case['ops'],
+                             'expected': e, 'observed': g, 'behaviour': 'siblings'})
+        ntr += 3
     return {'transitions': ntr, 'outcome': key_of([case['ops'], expect(0)[0],
                                                    expect(1)[0]]),
             'violations': viol}
@@ -484,6 +534,27 @@ def build(tier, seed):
             for t1 in ms:
                 grids.append(make_case(ems, [t0, t1], 2, [0, 1], seed,
                                        posterior=(len(t0) + len(t1) == 3)))
+    # measurement times that differ in the last digits only (0.1 + 0.2 and 0.3;
+    # neighbouring floats), within and across outputs
+    tn = 0.1 + 0.2
+    near = [[0.3, tn], [tn, 0.3 + 1e-13, 0.9], [0.3, 0.9, float(np.nextafter(0.9, 2))]]
+    for code in codes:
+        for t in near:
+            grids.append(make_case([code], [sorted(t)], 1, [0], seed, tag='n'))
+    for ems in itertools.product(codes[:2] + codes[3:], repeat=2):
+        for t0, t1 in (([0.3, 0.9], [tn]), ([tn, 0.9], [0.3, 0.9 + 1e-13]),
+                       ([0.3], [tn, float(np.nextafter(tn, 2))])):
+            grids.append(make_case(ems, [sorted(t0), sorted(t1)], 2, [0, 1], seed,
+                                   tag='n'))
+    # mechanistic parameters that are zero or negative (only the noise parameters
+    # have a sign constraint; the model output stays positive)
+    for code in codes:
+        for psi in ([0.0, 1.3], [2.5, -0.2], [2.5, 0.0]):
+            for ems, ts, n_toy, sel in (([code], [ms[5]], 1, [0]),
+                                        ([code, 'G'], [ms[5], ms[3]], 2, [0, 1])):
+                c = make_case(ems, ts, n_toy, sel, seed, tag='z')
+                c['params'][:2] = psi
+                grids.append(c)
     # long series with large / small predictions (the sum of per-measurement terms
     # stays finite where a product of scales does not)
     for code in codes:
@@ -555,6 +626,11 @@ def build(tier, seed):
                     c['fix'] = [[i, fv[i]] for i in sub]
                     c['split'] = split
                     fixing.append(c)
+                    if r >= 2:
+                        # the same dictionary written down from its last entry
+                        c = dict(c)
+                        c['fix_desc'] = True
+                        fixing.append(c)
     # siblings built from one pre-reduced user model: all sequences of <= 2 | 3
     # operations over {fix / re-fix / release on either sibling, user re-fixes}
     sib = []
